@@ -31,6 +31,11 @@ REAL = T("real")
 DTYPE = T("dtype")      # a numpy integer dtype as the pair (lowest, highest) representable value
 
 
+def CONST(value):
+    """a parameter fixed to a Python constant (e.g. a format string): branches on it are decided statically"""
+    return T("const", shape=(value,))
+
+
 def A1(dtype=None, elem="int", uninit=False):
     return T("arr", 1, dtype, elem, None, uninit)
 
